@@ -80,7 +80,7 @@ def main(tier):
     jobs += corpus.shape_jobs(sd, tier, extra=["reshape_between"] * 3 + ["tr_hw"] * 2 + ["skip_out", "tiny_depth", "fsgroups", "fsgroups"], thorough=25)
     # opt-in graph shapes: FULLY_CONNECTED with batches 1..17 (laid out over H x W by the compiler; alone = its result ends
     # the arena), memory-only operators on tensors entering the NPU subgraph (copies from the arena into the fast storage)
-    jobs += corpus.shape_jobs(sd, tier, families=[], extra=["fc_batch"] * N_FC_BATCH + ["memonly_first"] * N_MEMONLY, thorough=12)
+    jobs += corpus.shape_jobs(sd, tier, families=[], extra=["fc_batch"] * N_FC_BATCH + ["memonly_first"] * N_MEMONLY + ["odd_cascade"] * 2, thorough=12)
 
     def both(nng, arch, res):
         return {"fs": faststorage.extractor(nng, arch, res), "wb": weightbuf.extract(nng, arch, res)}
